@@ -1763,7 +1763,9 @@ func (dsc *dataStoreCommand) lmove(srcKeyName, destKeyName string, srcLeft, dest
 
 	if srcKeyName == destKeyName && srcList.count == 1 {
 		// rotating a one-element list leaves it as it is (popping would delete the key
-		// and the push would go to the detached list object)
+		// and the push would go to the detached list object); it still counts as a
+		// modification of the key (WATCH, snapshot), as the pop and push it stands for do
+		dsc.modifiedUnlocked(srcKeyName)
 		output.data = respBulkString(srcList.head.element)
 		return
 	}
